@@ -144,6 +144,9 @@ async fn handle_stream(sh: Sh, conn: quinn::Connection, mut s: BiStream) {
             while let Some(Ok(Frame::Message(m))) = s.next().await {
                 let mut b = b"echo:".to_vec();
                 b.extend_from_slice(&m.message);
+                if m.message.windows(5).any(|w| w == b"-slow") {
+                    tokio::time::sleep(std::time::Duration::from_millis(150)).await;
+                }
                 if s.send(Frame::Message(MessagePayload { headers: m.headers, message: b.into() })).await.is_err() {
                     break;
                 }
